@@ -64,6 +64,14 @@ CLAIMS = {
    text="Static triage of crash sites selected by HIR shape: decision tables of every match / if-let / let-else on an HIR or backend-local enum in the backends and hir::methods give the set of real variants that select a panic!/unreachable!/unimplemented!/todo! arm (66 today); each is triaged as excluded-by-property, impossible-by-type, impossible-by-gate (cross-checked against the backend's attr_support flags and the gate), guarded or finding; an untriaged arm fails. Plus an inventory of unwrap/expect on Options derived from HIR data or parameters (36 keys), and a producer/consumer agreement rule for nanobind. Reading the tables found 8 genuine crashes (4 repaired by fix: commits, the rest recorded as known findings with their triggering bridge).",
    note="Does not prove absence of all panics: index/slice panics, arithmetic overflow and identifier-value-dependent rejections are not decided; the triage reasons are reviewed by hand.",
    technique="decision-table extraction of diverging arms + triage table + support-flag cross-check + unwrap provenance inventory"),
+ "C02": dict(
+   text="Static decision of the C++ clauses whose truth is structural: (R1) inside the parameter loop of gen_method_info the branch selecting Slice::Str(_, Utf8) pushes a self-contained `if (!diplomat_is_str(p.data(), p.size())) return Err<Utf8Error>()` onto the list that MethodInfo.param_validations receives unchanged (no later joining), and the return type is wrapped accordingly; (R2) the method template prints the validations before the native call; (R3) C++->C argument order self->params->write; (R4) ok/err arms of every result/option conversion literal are not crossed; (R5) runtime.hpp: the std::string writer publishes cap = length() after resize(requested), the bundled span's copy constructor and operator= copy every member, callback trampolines cast the stored std::function.",
+   note="Does not decide that each of the ~40 conversion expressions preserves values, nor compilation under both C++ standards; C++ text is token-checked, not type-resolved.",
+   technique="HIR statement/branch rules + template ordering + C++ token rules (member-wise copy completeness)"),
+ "C04": dict(
+   text="Static decision of the necessary conditions for sound borrow edges: (R1) each managed backend creates the visitor, visits the receiver and every parameter, and consumes the result after all visits; (R2) every lifetime-carrying hir::Type variant (decision table of Type::lifetimes) has an edge kind, options are unwrapped first (found the DiplomatOption crash/omission, repaired by a fix: commit), the only early exit of visit_param is `no lifetime used by the return type`, edges are selected by membership in all_longer_lifetimes, and the return type's lifetime set visits Ok and Err payloads of every ReturnType constructor (decision table); (R3) direction of the outlives graph through the whole chain: extend_bounds' paired pushes, implied bounds collected through &, Option and Result, AST->HIR copies, all_longer_lifetimes walks `longer`; (R4) validation compares use-site and def-site longer sets over lifetimes_all() (including the reference's own lifetime).",
+   note="Exactness of the transitive closure for every signature is an algorithmic statement and is not decided.",
+   technique="must-call / ordering rules on generators + decision tables + direction (pairing) rules on graph construction"),
 }
 NOT_YET = "rule module not built yet in this round (see DESIGN.md section 4 for the planned static rules)"
 
